@@ -10,6 +10,8 @@ import (
 	"encoding/json"
 	"fmt"
 	"math/big"
+	"strings"
+	"sync"
 	"testing"
 
 	"github.com/trustbloc/sidetree-go/pkg/commitment"
@@ -216,6 +218,59 @@ func TestC16_JWKRoundTrip(t *testing.T) {
 				}
 			}
 		}
+		// member names are case-sensitive: a member spelled in another case is another member, it neither replaces nor repairs
+		// the real one
+		{
+			withDecoys := func(jw *jws.JWK, decoys map[string]interface{}) []byte {
+				m := map[string]interface{}{"kty": jw.Kty, "crv": jw.Crv, "x": jw.X}
+				if jw.Y != "" {
+					m["y"] = jw.Y
+				}
+				for n, v := range decoys {
+					m[n] = v
+				}
+				return []byte(refJCS(m))
+			}
+			o := otherKey(t, k)
+			ox, _ := o.XY()
+			decoy := rapid.SampledFrom([]string{"X", "Y", "KTY", "CRV", "Crv", "Kty"}).Draw(t, "decoyMember")
+			decoyVal := map[string]interface{}{"X": b64(ox), "Y": b64(ox), "KTY": "OKP", "CRV": "P-384", "Crv": "secp256k1", "Kty": "RSA"}[decoy]
+			var withDecoy jwsutil.JWK
+			if err := withDecoy.UnmarshalJSON(withDecoys(j, map[string]interface{}{decoy: decoyVal})); err != nil {
+				t.Fatalf("C16 %s: valid JWK refused because of an unrelated member %q: %v", k.Name, decoy, err)
+			}
+			if bj, err := withDecoy.MarshalJSON(); err != nil || !strings.Contains(string(bj), `"`+j.X+`"`) || (j.Y != "" && !strings.Contains(string(bj), `"`+j.Y+`"`)) {
+				t.Fatalf("C16 %s: JWK read next to a member %q is not the key of its x / y members: %s (%v)", k.Name, decoy, bj, err)
+			}
+			if mustReject {
+				// the modified key stays refused when the original coordinate is offered under the upper-case name
+				var b jwsutil.JWK
+				if err := b.UnmarshalJSON(withDecoys(&bad, map[string]interface{}{"X": j.X, "Y": j.Y, "CRV": j.Crv})); err == nil {
+					if _, gerr := jwsutil.GetED25519PublicKey(&bad); !(kt == ktEd25519 && gerr != nil) {
+						t.Fatalf("C16 %s: modified JWK (%s) accepted next to upper-case members holding the original values: %s", k.Name, label, withDecoys(&bad, map[string]interface{}{"X": j.X, "Y": j.Y, "CRV": j.Crv}))
+					}
+				}
+			}
+			// kty / crv only under upper-case names: not a JWK of any type
+			var noType jwsutil.JWK
+			if err := noType.UnmarshalJSON([]byte(refJCS(map[string]interface{}{"KTY": j.Kty, "CRV": j.Crv, "x": j.X, "y": j.Y}))); err == nil {
+				t.Fatalf("C16 %s: JWK without kty / crv members (only KTY / CRV) accepted", k.Name)
+			}
+		}
+		// the bytes of a marshalled key belong to the caller: marshalling another key does not change them
+		if back2, err := unmarshalJWK(j); err == nil {
+			b1, err1 := back2.MarshalJSON()
+			snap1 := string(b1)
+			if o2, err := unmarshalJWK(otherKey(t, k).LibJWK()); err == nil {
+				_, _ = o2.MarshalJSON()
+			}
+			if o3, err := unmarshalJWK(genKeyOf(t, kt, "sameTypeOther").LibJWK()); err == nil {
+				_, _ = o3.MarshalJSON()
+			}
+			if err1 != nil || string(b1) != snap1 {
+				t.Fatalf("C16 %s: bytes returned by MarshalJSON changed when other keys were marshalled:\n was %s\n now %s", k.Name, snap1, b1)
+			}
+		}
 		// readers used for verification must refuse it as well, also right after the valid key was used
 		{
 			msg := []byte("C16 verification message")
@@ -412,5 +467,59 @@ func TestC16_PrivateJWK(t *testing.T) {
 			t.Fatalf("C16 %s: private JWK with a modified point (%s) accepted: %s", k.Name, label, text(bx, by, d))
 		}
 		st.Case(true, fmt.Sprint("private|", k.Name, label, bx, by), "mod-"+label, "type-"+kt.String())
+	})
+}
+
+// TestC16_Concurrent: keys are converted to JWK form and read back from several goroutines at once (all of one key type,
+// so that whatever a conversion shares per type is shared); every goroutine gets its own key back.
+func TestC16_Concurrent(t *testing.T) {
+	st := statsFor("C16")
+	check(t, "C16", 30, func(t *rapid.T) {
+		kt := genKeyType(t, "kt")
+		n := rapid.IntRange(2, 8).Draw(t, "goroutines")
+		rounds := rapid.IntRange(20, 200).Draw(t, "rounds")
+		keys := make([]*Key, n)
+		for i := range keys {
+			if rapid.Bool().Draw(t, "fresh") {
+				keys[i] = genFreshKey(t, kt)
+			} else {
+				keys[i] = genKeyOf(t, kt, "key")
+			}
+		}
+		errs := make(chan string, n)
+		var wg sync.WaitGroup
+		for i := range keys {
+			wg.Add(1)
+			go func(k *Key) {
+				defer wg.Done()
+				x, y := k.XY()
+				wantY := ""
+				if y != nil {
+					wantY = b64(y)
+				}
+				for r := 0; r < rounds; r++ {
+					j, err := pubkey.GetPublicKeyJWK(k.Public())
+					if err != nil || j.X != b64(x) || j.Y != wantY || j.Crv != kt.Crv() {
+						errs <- fmt.Sprintf("%s: JWK of the key is %+v (%v), want x=%s y=%s", k.Name, j, err, b64(x), wantY)
+						return
+					}
+					back, err := unmarshalJWK(j)
+					if err != nil {
+						errs <- fmt.Sprintf("%s: own JWK not readable: %v", k.Name, err)
+						return
+					}
+					if bj, err := back.MarshalJSON(); err != nil || !strings.Contains(string(bj), `"`+b64(x)+`"`) {
+						errs <- fmt.Sprintf("%s: marshalled JWK %s (%v) does not carry the key's x", k.Name, bj, err)
+						return
+					}
+				}
+			}(keys[i])
+		}
+		awaitWorkers(t, &wg, "C16 concurrent key conversion")
+		close(errs)
+		for e := range errs {
+			t.Fatalf("C16 (with %d goroutines converting %s keys at the same time) %s", n, kt, e)
+		}
+		st.Case(n >= 3, fmt.Sprint("concurrent|", kt, n, rounds, keys[0].Name), "concurrent", "concurrent-"+kt.String())
 	})
 }
